@@ -368,6 +368,34 @@ class C05(Check):
                             os.unlink(pth)
                         if dst.exists():
                             os.unlink(dst)
+                # input files of different formats in one invocation (format guessed per file from its extension)
+                sets = [[REDUCED[0]], [REDUCED[0], REDUCED[6], REDUCED[3]], [REDUCED[3], REDUCED[7], REDUCED[0]]]
+                for k in (2, 3):
+                    for rows_sets in itertools.product(sets, repeat=k):
+                        for kinds in itertools.product(("AGP", "TPF"), repeat=k):
+                            if len(set(kinds)) < 2:
+                                continue
+                            agps, tpfs, paths = [], [], []
+                            for i, (rows, kind) in enumerate(zip(rows_sets, kinds)):
+                                asm = build([(f"s{i + 1}", list(rows))], ())
+                                agps.append(fmt(asm, "AGP"))
+                                tpfs.append(fmt(asm, "TPF"))
+                                pth = d / f"in{i}.{kind.lower()}"
+                                pth.write_text(agps[-1] if kind == "AGP" else tpfs[-1])
+                                paths.append(str(pth))
+                            case = ["cli-multi-mixed", [[list(r) for r in rows] for rows in rows_sets], list(kinds)]
+                            ctx.cur = case
+                            ctx.evaluations += 1
+                            ctx.nontrivial += 1
+                            for ext, want in (("agp", "".join(agps)), ("tpf", "".join(tpfs))):
+                                dst = d / f"multi.{ext}"
+                                r = runner.invoke(cli, [*paths, "-o", str(dst)])
+                                if r.exit_code != 0 or dst.read_text() != want:
+                                    ctx.violation("cli-several-inputs-mixed-formats", case, f"-o multi.{ext}: exit {r.exit_code}: {dst.read_text()[:300] if dst.exists() else None!r}")
+                                if dst.exists():
+                                    os.unlink(dst)
+                            for pth in paths:
+                                os.unlink(pth)
             ctx.sample({"cli": "asm-format stdin/file, AGP<->TPF, several inputs", "rows": [list(r) for r in REDUCED[:2]]})
         finally:
             shutil.rmtree(d, ignore_errors=True)
@@ -443,7 +471,7 @@ class C05(Check):
             lines = text.splitlines()
             t2 = "\n".join(lines[:li] + [bad] + lines[li + 1 :]) + "\n"
             self.one_corruption(t2, fkind, len(data_lines(text)), case, ctx)
-        elif kind in ("cli", "cli-multi"):
+        elif kind in ("cli", "cli-multi", "cli-multi-mixed"):
             self.check_cli_one = None
             # re-run the whole CLI part that contains the case (cheap)
             for part in range(4):
@@ -452,5 +480,5 @@ class C05(Check):
 
 CHECK = C05()
 # scope added in later rounds, kept in the evidence text
-CHECK.rule += ' Rows with six tags; asm-format with two and three input files into one output (file and stdout).'
+CHECK.rule += ' Rows with six tags; asm-format with two and three input files into one output (file and stdout), also with AGP and TPF inputs mixed in one invocation.'
 CHECK.rule += " Scaffold and contig names containing '%' (u%%7, 50%, c%d_r, k%s%%)."
